@@ -1,0 +1,22 @@
+//go:build verif
+
+package unmarshal
+
+// Aliases of unexported identifiers for the verification harness (property C05): a scripted decoder
+// behind the real parserDoer (goroutine, channel, tamePanic, batching handlers).
+// No behaviour; compiled only with -tags verif.
+
+type (
+	VerifC05SpansParser    = iSpansParser
+	VerifC05LogsParser     = iLogsParser
+	VerifC05ProfilesParser = iProfilesParser
+	VerifC05OnSpan         = onSpanHandler
+	VerifC05OnEntries      = onEntriesHandler
+	VerifC05OnProfile      = onProfileHandler
+)
+
+var (
+	VerifC05WithSpansParser   = withSpansParser
+	VerifC05WithLogsParser    = withLogsParser
+	VerifC05WithProfileParser = withProfileParser
+)
